@@ -125,7 +125,7 @@ def _dyadic(r, lo=-64, hi=64, den=(1, 2, 4, 8)):
     return r.randint(lo, hi) / r.choice(den)
 
 
-def _mappings(r, dtype, M, nested):
+def _mappings(r, dtype, M, nested, first_lut=False):
     """-> (mappings argument for the constructor, description list per channel of dicts)"""
     from highdicom.pm import RealWorldValueMapping
     from pydicom.sr.codedict import codes
@@ -138,7 +138,11 @@ def _mappings(r, dtype, M, nested):
         for k in range(r.choice([1, 1, 2, 3])):
             label = f'L{j}_{k}'
             unit = units[(j + k) % 3]
-            if not is_float and r.random() < 0.35:
+            if first_lut and k == 0:
+                lut = [_dyadic(r) for _ in range(64)]
+                ms.append(RealWorldValueMapping(label, 'e' + label, unit, (0, 63), lut_data=lut))
+                ds_.append({'kind': 'lut', 'label': label, 'first': 0, 'last': 63, 'lut': lut, 'unit': unit.value})
+            elif not is_float and r.random() < 0.35:
                 first = r.choice([0, 0, r.randint(0, 20)])
                 last = r.choice([hi, hi, r.randint(first, min(hi, first + 300))])
                 if last - first > 4000:
@@ -287,16 +291,26 @@ def _pm_case(ctx, idx):
     shape = {2: (rows, cols), 3: (n, rows, cols), 4: (n, rows, cols, M)}[ndim]
     layout = r.choice(['c', 'c', 'c', 'fortran', 'view', 'bigendian'])
     explicit_pos = r.random() < 0.3
+    profile = 'general'
+    if not dtype.startswith('float') and r.random() < 0.3:
+        # every channel's FIRST mapping is a look-up table covering all values present, each channel its own table:
+        # the input class on which a batch read must switch tables between frames
+        profile, ndim, M = 'lut-per-channel', 4, r.choice([2, 2, 3])
+        n = r.choice([1, 2, 3])
+        shape = (n, rows, cols, M)
     d = {'idx': idx, 'dtype': dtype, 'source': kind, 'ndim': ndim, 'N': n, 'M': M, 'ts': ts, 'rows': rows, 'cols': cols,
-         'layout': layout, 'explicit_pos': explicit_pos}
+         'layout': layout, 'explicit_pos': explicit_pos, 'profile': profile}
     return d, r, shape
 
 
 def _build_pm(ctx, d, r, shape):
     import highdicom as hd
     from highdicom.pm import ParametricMap
-    a = _layout(_pm_array(ctx, d['idx'], r, d['dtype'], shape), d['layout'])
-    maps, desc = _mappings(r, d['dtype'], d['M'], nested=(d['ndim'] == 4))
+    a = _pm_array(ctx, d['idx'], r, d['dtype'], shape)
+    if d.get('profile') == 'lut-per-channel':
+        a = (a % 48).astype(a.dtype)
+    a = _layout(a, d['layout'])
+    maps, desc = _mappings(r, d['dtype'], d['M'], nested=(d['ndim'] == 4), first_lut=(d.get('profile') == 'lut-per-channel'))
     src, src_pos, cs = _sources(ctx, d['idx'], r, d['source'], d['N'], d['rows'], d['cols'])
     kw = {}
     pos = src_pos
@@ -478,6 +492,24 @@ def _check_pm(ctx, idx, reqs, pending):
                 s7, v = _try(im.get_frame, f + 1, apply_real_world_transform=True, real_world_value_map_selector=bad)
                 queries.append(dict({'q': 'real', 'f': f}, **_sel_json(bad)))
                 impl['answers'].append('err' if s7 != 'ok' else 'values')
+        # batches with the real-world transform: every frame must get the mapping attached to IT (index 0 / label of
+        # the first mapping of its channel), also when the frames of one call belong to different channels
+        if not is_float and F >= 2:
+            for sel_kind in ('index', 'all'):
+                fs = list(range(F)) if sel_kind == 'all' else [r.randrange(F) for _ in range(r.randint(2, 5))]
+                exps = [_expected_real(planes[f], desc[f % M][0]) for f in fs]
+                s8, v = _try(im.get_frames, [f + 1 for f in fs], apply_real_world_transform=True, real_world_value_map_selector=0)
+                if any(e is None for e in exps):
+                    ctx.case(kind='pm', path=f'{tag}/rwvm-batch-outside', outcome='refused' if s8 != 'ok' else 'values')
+                    if s8 == 'ok':
+                        obs(f'{tag}/rwvm-batch', False, 'a batch containing values outside a mapped range was mapped silently', fs)
+                else:
+                    want_b = np.stack(exps)
+                    good = s8 == 'ok' and np.asarray(v).shape == want_b.shape and bool(np.array_equal(np.asarray(v, dtype=np.float64), want_b))
+                    obs(f'{tag}/rwvm-batch', good,
+                        v if s8 != 'ok' else {'what': 'batch of real-world frames differs from the per-frame mappings', 'frames': fs,
+                                              'got': np.asarray(v, dtype=np.float64).reshape(-1)[:8].tolist(),
+                                              'want': want_b.reshape(-1)[:8].tolist()}, fs, mapping='/'.join(sorted({desc[f % M][0]['kind'] for f in fs})))
         # volume (one mapping per position, distinct positions along one direction)
         if cs == 'PATIENT' and M == 1 and N >= 2 and not (d['explicit_pos'] and len({p[:2] for p in pos}) > 1):
             s6, vol = _try(im.get_volume, dtype=np.float64, apply_real_world_transform=False, apply_modality_transform=False,
